@@ -34,10 +34,10 @@ Proof. destruct x; reflexivity. Qed.
 Lemma g_ss_lock_stderr_eq cf x : g_ss_lock_stderr cf x = x.
 Proof. destruct x; reflexivity. Qed.
 
-(* the hand-written glue around the pinned StripStream::write_vectored *)
+(* the TRANSLATED StripStream::write_vectored (Generated/StreamFn.v; Proofs/StreamGen.v g_ss_write_vectored_first) *)
 Lemma g_ss_write_vectored_eq x bufs :
   conv_ss sres_of_n (g_ss_write_vectored x bufs) = ss_op (ss_state x) (ss_raw x) (OWriteVectored bufs).
-Proof. unfold g_ss_write_vectored. rewrite g_ss_write_eq. reflexivity. Qed.
+Proof. rewrite g_ss_write_vectored_first, g_ss_write_eq. reflexivity. Qed.
 
 (* ---- auto.rs: the constructors ------------------------------------------------------------------ *)
 
@@ -369,7 +369,10 @@ Qed.
 
 Lemma gl_ss_write_vectored_eq x bufs :
   gl_ss_write_vectored x bufs = lss_res x (g_ss_write_vectored (lss_erase x) bufs).
-Proof. unfold gl_ss_write_vectored, g_ss_write_vectored. apply gl_ss_write_eq. Qed.
+Proof.
+  rewrite g_ss_write_vectored_first. unfold gl_ss_write_vectored. cbv zeta. rewrite find_nonempty_is_first_nonempty.
+  rewrite gl_ss_write_eq. destruct (g_ss_write (lss_erase x) (first_nonempty bufs)) as [[x1 r]|]; reflexivity.
+Qed.
 
 (* AutoStream: [las_with log a] is the stream value [a] whose raw stream carries the log [log] *)
 Definition las_locked (log : list lmark) (a a1 : astream) : lastream :=
